@@ -66,6 +66,9 @@ func (s *Server) referrerGet(repoStr, arg string) http.HandlerFunc {
 				return
 			}
 			if cacheResp, err := s.referrerCache.Get(referrerKey{dig: dig, artifactType: filterAT}); err == nil && page < len(cacheResp) {
+				if filterAT != "" {
+					w.Header().Add(referrerFilterATHeaderKey, referrerFilterATHeaderValue)
+				}
 				if page+1 < len(cacheResp) {
 					next := r.URL
 					q := next.Query()
@@ -107,6 +110,9 @@ func (s *Server) referrerGet(repoStr, arg string) http.HandlerFunc {
 		if cacheResp, err := s.referrerCache.Get(referrerKey{dig: d.Digest, artifactType: filterAT}); err == nil {
 			if page >= len(cacheResp) {
 				page = 0
+			}
+			if filterAT != "" {
+				w.Header().Add(referrerFilterATHeaderKey, referrerFilterATHeaderValue)
 			}
 			if page+1 < len(cacheResp) {
 				next := r.URL
